@@ -672,8 +672,16 @@ def invocation_variants(rep, cls, jobs, rng, n=12):
         if cur:
             groups.append(cur)
         rev = [x for g in reversed(groups) for x in g]
-        variants = [("input by path", [sub] + opts + [inp], b"", None), ("-q", [sub, "-q"] + opts, data, None), ("-v", [sub, "-v"] + opts, data, None),
-                    ("-vv", [sub, "-vv"] + opts, data, None), ("options reversed", [sub] + rev, data, None), ("path first, options after", [sub, inp] + rev, b"", None)]
+        # list-valued options given as repeated occurrences instead of one comma list (-m 0,2 = -m 0 -m 2)
+        rep_opts = []
+        for g in groups:
+            if len(g) == 2 and "," in g[1] and g[0] not in ("-d", "--delimiter"):
+                rep_opts += [x for v in g[1].split(",") for x in (g[0], v)]
+            else:
+                rep_opts += g
+        variants = [("list options repeated", [sub] + rep_opts, data, None)] if rep_opts != opts else []
+        variants += [("input by path", [sub] + opts + [inp], b"", None), ("-q", [sub, "-q"] + opts, data, None), ("-v", [sub, "-v"] + opts, data, None),
+                     ("-vv", [sub, "-vv"] + opts, data, None), ("options reversed", [sub] + rev, data, None), ("path first, options after", [sub, inp] + rev, b"", None)]
         if sub in ("view", "fold") and "-o" not in opts and "--output" not in opts:
             outp = os.path.join(d, "out_%d" % k)
             variants.append(("-o file", [sub] + opts + ["-o", outp], data, outp))
